@@ -78,6 +78,8 @@ class Env:
         env = {"PATH": self.bin, "HTTP_PROXY": "http://proxy.host:3128", "HTTPS_PROXY": "http://proxy.host:3128", "NO_PROXY": "localhost", "http_proxy": "http://proxy.host:3128", "https_proxy": "http://lower.proxy:1", "no_proxy": "x", "DOCKER_HOST": ENDPOINT_ENV["DOCKER_HOST"], "DOCKER_CONTEXT": ENDPOINT_ENV["DOCKER_CONTEXT"], "TMPDIR": self.tmp, "CARGO_MANIFEST_DIR": self.crate, "VP_CMDLOG": self.log, "VP_CMDPLAN": self.plan, "VP_STANDIN_BIN": self.bin, "VP_STANDIN_TARGET": os.path.join(vp.BIN, "vpstandin"), "RUST_BACKTRACE": "0",
                # (cargo test sets CARGO; libcnb-test asks it for the workspace root when it packages a buildpack of the crate under test)
                "CARGO": real_cargo()}
+        for k, v in vp.hostile_env(cargo=True).items():
+            env.setdefault(k, v)
         root_before = set(os.listdir(self.root)) | {os.path.basename(self.log)}
         if tmp_above_fixture:
             env["TMPDIR"] = self.root
